@@ -74,11 +74,11 @@ func init() {
 	ev.Register(&ev.Prop{
 		ID:    "C10",
 		Level: "exploration",
-		Cases: func(t string) int { return gridSize(t) + randomCases(t) + v3Cases(t) },
+		Cases: func(t string) int { return gridSize(t) + randomCases(t) + v3Cases(t) + sysCases(t) },
 		Batches: func(t string) int {
 			return 16
 		},
-		Rule: "grid cases = every (block length n, failing position p, failure kind) with n<=8 (thorough 24), kinds none / retryable once / retryable RetryCount times / retryable forever / retryable RetryCount+1 times / non-retryable (3 error codes) / retryable then non-retryable; random cases = blocks with 0..3 failing transactions. Every case is executed by real service transitions at ConcurrencyLevel 1 and at 2,3,8 (thorough +4,16) x 3 delay profiles (failing handler returns early / late / random relative to its neighbours), lock declarations world-write / shared accounts / disjoint accounts / none. Oracle: reported success => receipts == n, every transaction's handler was invoked, its LAST invocation returned a receipt and exactly that receipt sits at slot i (to/stepUsed identify i, cumulative steps are the prefix sums); a last invocation that returned an error (non-retryable, or retryable with the executor giving up) with reported success is a drop; reported failure => Result()==nil. V3 cases = blocks of transactions executed by goloop's regular transaction handler (transaction.NewHandler: balance check, steps, contract call, DoExecute status classification, fee, receipt) in which the CONTRACT handler of the transaction at position p (every p of every n<=5, thorough 10) ends with revert / CriticalIOError / CriticalUnknownError / CriticalFormatError / ExecutionFailError once, RetryCount times, forever, once-then-critical, at levels 1,2,4 (thorough 1,2,3,8); same oracle (a contract call whose last ending was a critical or given-up retryable status + reported success = drop). Process panics are caught by the child isolation. Non-trivial = distinct (n, positions, kinds, level, lock mode, delay profile) with >=1 failing handler invocation.",
+		Rule: "grid cases = every (block length n, failing position p, failure kind) with n<=8 (thorough 24), kinds none / retryable once / retryable RetryCount times / retryable forever / retryable RetryCount+1 times / non-retryable (3 error codes) / retryable then non-retryable; random cases = blocks with 0..3 failing transactions. Every case is executed by real service transitions at ConcurrencyLevel 1 and at 2,3,8 (thorough +4,16) x 3 delay profiles (failing handler returns early / late / random relative to its neighbours), lock declarations world-write / shared accounts / disjoint accounts / none. Oracle: reported success => receipts == n, every transaction's handler was invoked, its LAST invocation returned a receipt and exactly that receipt sits at slot i (to/stepUsed identify i, cumulative steps are the prefix sums); a last invocation that returned an error (non-retryable, or retryable with the executor giving up) with reported success is a drop; reported failure => Result()==nil. V3 cases = blocks of transactions executed by goloop's regular transaction handler (transaction.NewHandler: balance check, steps, contract call, DoExecute status classification, fee, receipt) in which the CONTRACT handler of the transaction at position p (every p of every n<=5, thorough 10) ends with revert / CriticalIOError / CriticalUnknownError / CriticalFormatError / ExecutionFailError once, RetryCount times, forever, once-then-critical, at levels 1,2,4 (thorough 1,2,3,8); same oracle (a contract call whose last ending was a critical or given-up retryable status + reported success = drop). System-SCORE cases (last in every batch) = blocks of 1..4 regular-handler transactions of which one or two CALL a harness system SCORE (content type 'system') through the real contract manager (CallHandler.Prepare -> PrepareContractStore in the concurrent executor), at level 1 and 2/4; the concurrent Result()/receipts must equal the sequential ones; a transition that does not call back is judged by goroutine stacks, not by time: a goroutine parked in 'chan send' inside contractStoreImpl.Dispose/notify in two polls while no storeContract is in flight is a final state = concurrent.transition-deadlock.contract-store; no callback without that evidence stays inconclusive. Process panics are caught by the child isolation. Non-trivial = distinct (n, positions, kinds, level, lock mode, delay profile) with >=1 failing handler invocation.",
 		MinNonTrivial: func(t string) int {
 			if t == ev.Thorough {
 				return 30000
@@ -91,7 +91,8 @@ func init() {
 			"conc_failing_tx_finished_last", "conc_failing_tx_finished_first", "conc_failing_tx_in_last_level_positions",
 			"conc_overlapping_blocks",
 			"v3_seq_block_failed_critical", "v3_conc_block_failed_critical", "v3_seq_block_failed_exhausted", "v3_conc_block_failed_exhausted",
-			"v3_seq_block_ok_after_retry", "v3_conc_block_ok_after_retry", "v3_receipts_attributed"},
+			"v3_seq_block_ok_after_retry", "v3_conc_block_ok_after_retry", "v3_receipts_attributed",
+			"system_score_calls_sequential", "system_score_calls_concurrent", "system_score_blocks_concurrent_completed"},
 		Assumptions: []string{
 			"scripted transaction type (lib/svc) registered through transaction.RegisterFactory stands in for contract handlers; the executor, retry loop, error latch and receipt aggregation are goloop's",
 			"basic platform, empty initial world state, MapDB",
@@ -234,7 +235,12 @@ func run(c *ev.Ctx) {
 				}
 				feeRoot = so.Tr
 			}
-			v3Case(c, env, feeRoot, r, ci, ci-gridSize(c.Tier)-randomCases(c.Tier), &sub)
+			vi := ci - gridSize(c.Tier) - randomCases(c.Tier)
+			if vi >= v3Cases(c.Tier) {
+				sysCase(c, env, feeRoot, r, ci, vi-v3Cases(c.Tier), &sub)
+				return
+			}
+			v3Case(c, env, feeRoot, r, ci, vi, &sub)
 			return
 		}
 		spec := specOfCase(c.Tier, ci, r)
@@ -628,5 +634,181 @@ func v3Case(c *ev.Ctx, env *svc.Env, parent module.Transition, r *rand.Rand, ci,
 		if c.WantSample() && ck.critical && level > 1 {
 			c.Sample(wit(nil))
 		}
+	}
+}
+
+// ---- blocks with calls to a system SCORE through the real contract manager
+
+func sysCases(t string) int {
+	if t == ev.Thorough {
+		return 160
+	}
+	return 32
+}
+
+// set once a contract-store deadlock was seen in this process: the leaked
+// goroutines keep locks of the contract manager, so no further concurrent
+// system SCORE blocks are run in this batch (sequential ones are unaffected).
+var sysPoisoned bool
+
+// runWatched runs the transition and, while it has not called back, polls the
+// goroutine stacks for the final parked state (no wall-clock verdict).
+func runWatched(env *svc.Env, parent module.Transition, txs []module.Transaction, height, ts int64, level int) (o *svc.Outcome, parked map[string]string) {
+	done := make(chan *svc.Outcome, 1)
+	go func() { done <- env.Run(parent, txs, height, ts, level, true, 120*time.Second) }()
+	var prev map[string]string
+	for {
+		select {
+		case o = <-done:
+			return o, nil
+		case <-time.After(300 * time.Millisecond):
+			cur, storing := svc.ContractStoreDeadlock()
+			if storing || len(cur) == 0 {
+				prev = nil
+				continue
+			}
+			same := map[string]string{}
+			for id, st := range cur {
+				if _, ok := prev[id]; ok {
+					same[id] = st
+				}
+			}
+			if len(same) > 0 {
+				return nil, same
+			}
+			prev = cur
+		}
+	}
+}
+
+func sysCase(c *ev.Ctx, env *svc.Env, parent module.Transition, r *rand.Rand, ci, si int, sub *int) {
+	n := 1 + si%4
+	nCalls := 1
+	if si >= 16 && n > 1 && si%2 == 1 {
+		nCalls = 2
+	}
+	pos := map[int]bool{r.Intn(n): true}
+	for len(pos) < nCalls {
+		pos[r.Intn(n)] = true
+	}
+	const ts = int64(1_700_000_000_000_000)
+	type res struct {
+		o   *svc.Outcome
+		tos []module.Address
+	}
+	var seq *res
+	lv := []int{1, 2, 4}
+	if c.Tier == ev.Thorough {
+		lv = []int{1, 2, 3, 8}
+	}
+	for li, level := range lv {
+		if c.Stopped() {
+			return
+		}
+		if li > 0 {
+			c.Eval(1)
+		}
+		if level > 1 && sysPoisoned {
+			c.Count("system_score_concurrent_blocks_skipped_after_deadlock", 1)
+			continue
+		}
+		*sub++
+		v3Run++
+		run := v3Run<<8 | uint32(c.Batch)
+		// the same transactions (same ids) at every level so that results are comparable
+		salt := fmt.Sprintf("C10/%d/%d/sys", c.Seed, ci)
+		txs := make([]module.Transaction, n)
+		tos := make([]module.Address, n)
+		for i := 0; i < n; i++ {
+			from := svc.SenderAddr((si + i) % svc.NSenders)
+			if pos[i] {
+				tos[i] = svc.ExecScoreAddr
+				txs[i] = svc.NewScoreCallTx(salt, i, ts, from, fmt.Sprintf("v%d.%d", ci, i))
+			} else {
+				tos[i] = svc.PlainAddr(uint32(ci), i)
+				txs[i] = svc.NewCallTx(salt, i, ts, from, tos[i])
+			}
+		}
+		_ = run
+		var callPos []int
+		for i := 0; i < n; i++ {
+			if pos[i] {
+				callPos = append(callPos, i)
+			}
+		}
+		c.Note("system-score transition sub=%d n=%d level=%d system_score_call_positions=%v score=%s", *sub, n, level, callPos, svc.ExecScoreAddr)
+		mode := "seq"
+		if level > 1 {
+			mode = "conc"
+		}
+		o, parked := runWatched(env, parent, txs, 2, ts, level)
+		wit := func(extra map[string]interface{}) map[string]interface{} {
+			w := map[string]interface{}{"stage": "regular transaction handler calling a system SCORE through the real contract manager",
+				"n": n, "level": level, "system_score_call_positions": callPos, "score": svc.ExecScoreAddr.String()}
+			if o != nil {
+				w["on_execute_err"] = fmt.Sprint(o.ExecuteErr)
+				w["on_validate_err"] = fmt.Sprint(o.ValidateErr)
+				w["receipts"] = len(o.Receipts)
+			}
+			for k, v := range extra {
+				w[k] = v
+			}
+			return w
+		}
+		if parked != nil {
+			sysPoisoned = true
+			c.Count("system_score_calls_"+map[string]string{"seq": "sequential", "conc": "concurrent"}[mode], len(callPos))
+			c.Violation("concurrent.transition-deadlock.contract-store", wit(map[string]interface{}{
+				"verdict":           "the transition produced neither a result nor an error: goroutine(s) parked in 'chan send' inside contractStoreImpl.Dispose/notify in two consecutive stack dumps while no storeContract is in flight (the store channel has no other receiver: final state)",
+				"parked_goroutines": parked}))
+			continue
+		}
+		if o.TimedOut {
+			c.Notef("case %d sub %d: system-score transition never called back within 120 s (level=%d) and no contract-store deadlock evidence; waiting for the batch watchdog", ci, *sub, level)
+			select {}
+		}
+		if mode == "seq" {
+			c.Count("system_score_calls_sequential", len(callPos))
+		} else {
+			c.Count("system_score_calls_concurrent", len(callPos))
+		}
+		if !o.Succeeded() {
+			// every handler of this block succeeds: not a drop, but nothing can be compared either
+			c.Count("system_score_"+mode+"_block_failed", 1)
+			c.Notef("case %d sub %d: system-score block failed at level %d: %v / %v", ci, *sub, level, o.ValidateErr, o.ExecuteErr)
+			continue
+		}
+		if len(o.Receipts) != n || o.ReceiptErr != nil {
+			c.Violation(mode+".sys.success.receipt-count", wit(nil))
+			continue
+		}
+		for i, rc := range o.Receipts {
+			if rc == nil || !rc.To().Equal(tos[i]) {
+				c.Violation(mode+".sys.success.receipt-out-of-order", wit(map[string]interface{}{"slot": i}))
+				return
+			}
+			if rc.Status() != module.StatusSuccess {
+				c.Count("system_score_receipt_status_"+rc.Status().String(), 1)
+			}
+		}
+		if mode == "seq" {
+			seq = &res{o, tos}
+			continue
+		}
+		c.Count("system_score_blocks_concurrent_completed", 1)
+		if seq != nil {
+			if !bytes.Equal(seq.o.Result, o.Result) {
+				c.Violation("conc.sys.result-differs-from-sequential", wit(map[string]interface{}{"sequential": fmt.Sprintf("%x", seq.o.Result), "concurrent": fmt.Sprintf("%x", o.Result)}))
+				continue
+			}
+			for i := range o.Receipts {
+				if !bytes.Equal(seq.o.Receipts[i].Bytes(), o.Receipts[i].Bytes()) {
+					c.Violation("conc.sys.receipt-differs-from-sequential", wit(map[string]interface{}{"slot": i}))
+					break
+				}
+			}
+			c.Count("system_score_results_compared_with_sequential", 1)
+		}
+		c.NonTrivial(fmt.Sprintf("sys|%d|%v|%d", n, callPos, level))
 	}
 }
